@@ -366,12 +366,16 @@ def _histories(cs, T, st, slots, res, issue, hashable, depth):
         res.traces += 1
         res.nontrivial += 1
         bad = None
-        if not (obj == fresh) or not (fresh == obj):
-            bad = "not equal to a fresh instance with the same field values"
-        elif hashable and hash(obj) != hash(fresh):
-            bad = "hash differs from a fresh instance with the same field values"
-        elif bool(obj) != bool(fresh) or obj.dumps() != fresh.dumps():
-            bad = "bool/dumps differ from a fresh instance with the same field values"
+        try:
+            if not (obj == fresh) or not (fresh == obj):
+                bad = "not equal to a fresh instance with the same field values"
+            elif hashable and hash(obj) != hash(fresh):
+                bad = "hash differs from a fresh instance with the same field values"
+            elif bool(obj) != bool(fresh) or obj.dumps() != fresh.dumps():
+                bad = "bool/dumps differ from a fresh instance with the same field values"
+        except Exception as e:  # noqa: BLE001  - ==, hash, bool and dumps of a well-formed instance never raise
+            issue("history:raises", f"after {hist}: {impl.exc_sig(e)} {e!r}", history=hist)
+            return
         if bad:
             issue("history", f"after {hist}: {bad} ({impl.norm(obj)})", history=hist)
             return
@@ -433,22 +437,25 @@ def creation_orders(tier) -> JobResult:
             res.evaluations += 1
             res.states += 1
             res.nontrivial += 1
-            x = T(**{f1: 1, f2: 2})
-            y = T(**{f1: 1, f2: 2})
-            z = T(**{f1: 2, f2: 1})
-            w = T(**{f2: 2})
             probs = []
-            if not (x == y) or x == z or hash(x) != hash(y) or not bool(x) or bool(T()):
-                probs.append("eq/hash/bool")
-            if (getattr(x, f1), getattr(x, f2)) != (1, 2) or (getattr(w, f1), getattr(w, f2)) != (0, 2):
-                probs.append("init")
-            if T(1, 2) != x or (getattr(T(1), f1), getattr(T(1), f2)) != (1, 0):
-                probs.append("positional init")
-            for k2 in "ABCD":
-                if k2 != k:
-                    g1, g2 = fields[k2]
-                    if x == getattr(cs, k2)(**{g1: getattr(x, f1) if g1 == f1 else 1, g2: 2 if g2 != f1 else 1}):
-                        probs.append(f"equal to an instance of {k2}")
+            try:
+                x = T(**{f1: 1, f2: 2})
+                y = T(**{f1: 1, f2: 2})
+                z = T(**{f1: 2, f2: 1})
+                w = T(**{f2: 2})
+                if not (x == y) or x == z or hash(x) != hash(y) or not bool(x) or bool(T()):
+                    probs.append("eq/hash/bool")
+                if (getattr(x, f1), getattr(x, f2)) != (1, 2) or (getattr(w, f1), getattr(w, f2)) != (0, 2):
+                    probs.append("init")
+                if T(1, 2) != x or (getattr(T(1), f1), getattr(T(1), f2)) != (1, 0):
+                    probs.append("positional init")
+                for k2 in "ABCD":
+                    if k2 != k:
+                        g1, g2 = fields[k2]
+                        if x == getattr(cs, k2)(**{g1: getattr(x, f1) if g1 == f1 else 1, g2: 2 if g2 != f1 else 1}):
+                            probs.append(f"equal to an instance of {k2}")
+            except Exception as e:  # noqa: BLE001  - constructing, comparing and hashing two-field instances never raises
+                probs.append(f"raises {impl.exc_sig(e)} {e!r}")
             if probs:
                 res.violations.append(Violation("creation-order", f"creation-order|{k}", {"order": list(order), "class": k}, f"definition order {order}: class {k}: {probs}"))
     res.samples.append({"creation_orders": 24, "classes": defs})
